@@ -159,21 +159,21 @@ func (b *Bool) Store(x bool) {
 
 type Int32 struct{ v int32 }
 
-func (i *Int32) Load() int32           { return LoadInt32(&i.v) }
-func (i *Int32) Store(x int32)         { StoreInt32(&i.v, x) }
-func (i *Int32) Add(d int32) int32     { return AddInt32(&i.v, d) }
+func (i *Int32) Load() int32                    { return LoadInt32(&i.v) }
+func (i *Int32) Store(x int32)                  { StoreInt32(&i.v, x) }
+func (i *Int32) Add(d int32) int32              { return AddInt32(&i.v, d) }
 func (i *Int32) CompareAndSwap(o, n int32) bool { return CompareAndSwapInt32(&i.v, o, n) }
 
 type Uint32 struct{ v uint32 }
 
-func (i *Uint32) Load() uint32       { return LoadUint32(&i.v) }
-func (i *Uint32) Store(x uint32)     { StoreUint32(&i.v, x) }
+func (i *Uint32) Load() uint32        { return LoadUint32(&i.v) }
+func (i *Uint32) Store(x uint32)      { StoreUint32(&i.v, x) }
 func (i *Uint32) Add(d uint32) uint32 { return AddUint32(&i.v, d) }
 
 type Uint64 struct{ v uint64 }
 
-func (i *Uint64) Load() uint64       { return LoadUint64(&i.v) }
-func (i *Uint64) Store(x uint64)     { StoreUint64(&i.v, x) }
+func (i *Uint64) Load() uint64        { return LoadUint64(&i.v) }
+func (i *Uint64) Store(x uint64)      { StoreUint64(&i.v, x) }
 func (i *Uint64) Add(d uint64) uint64 { return AddUint64(&i.v, d) }
 
 type Int64 struct{ v int64 }
